@@ -151,7 +151,7 @@ func (d Descriptor) Equal(d2 Descriptor) bool {
 		return false
 	} else {
 		for i := range d.Annotations {
-			if d.Annotations[i] != d2.Annotations[i] {
+			if v2, ok := d2.Annotations[i]; !ok || d.Annotations[i] != v2 {
 				return false
 			}
 		}
